@@ -1,18 +1,21 @@
-(* C13 — jitter varies each tick but preserves the long-run total.
-   Only the property theorems; proofs are in Proofs/JitterProofs.v.
+(* C13 — jitter preserves the long-run total.
+   Only the property theorems; proofs in Proofs/JitterProofs.v (exact layer)
+   and Proofs/JitterF64.v (the binary64 code produces admissible runs).
 
-   The theorems are stated on the exact layer: a run is any pair of lists
-   (rates, outs) of equal length such that every step is admissible
-   (run_ok: the emitted value r is within jitter percent of rate+balance, up
-   to one unit of slack that covers the final rounding to an integer, 1/2,
-   plus binary64 rounding of the product; and r = 0 when rate+balance < 0).
-   They hold for EVERY admissible run, hence for every outcome of the random
-   variation. That the binary64 implementation only produces admissible runs
-   with exactly-carried balances is not proved in Coq (it is a statement about
-   float rounding, hence C13_*_partial); it is checked on every step of the
-   implementation's own outputs by the extracted predicate jit_ok, and the
-   binary64 transcription jit_run_f64 is compared bit-for-bit. *)
-From F1 Require Import Base.Prelude Base.F64 Model.Jitter Proofs.JitterProofs.
+   The exact layer is the recurrence of WithJitter over the integers with the
+   emitted value as an oracle constrained by jitter_step_ok; its theorems hold
+   for EVERY admissible run, hence for every outcome of the random variation.
+   C13_f64_admissible proves from Flocq's correct-rounding theorems that the
+   binary64 transcription jit_run_f64 (compared bit for bit with the
+   implementation) only produces admissible runs, with the balance carried
+   exactly, for every finite variation factor in [-1, 1], every jitter
+   percentage that is a positive normal float below 100, and magnitudes below
+   2^49; C13_f64_total composes the two. The extracted predicate jit_ok is
+   additionally evaluated on every run of the implementation. *)
+From Coq Require Import Reals.
+From Flocq Require Import Core IEEE754.BinarySingleNaN.
+From F1 Require Import Base.Prelude Base.F64 Model.Jitter Proofs.JitterProofs Proofs.JitterF64.
+Local Open Scope Z_scope.
 
 (* Zero jitter is the identity. *)
 Theorem C13_identity : forall rates cs, jit_run_f64 0 rates cs = rates.
@@ -21,7 +24,7 @@ Print Assumptions C13_identity.
 
 (* The unapplied remainder is carried: after any number of ticks,
    (sum of rates) - (sum of outputs) is exactly the current balance. *)
-Theorem C13_telescope_partial : forall jn jd rates outs,
+Theorem C13_telescope : forall jn jd rates outs,
   run_ok jn jd 0 rates outs ->
   final_bal 0 rates outs = zsum rates - zsum outs /\
   forall k b, nth_error (balances 0 rates outs) k = Some b ->
@@ -31,12 +34,12 @@ Proof.
   - rewrite telescope by exact Hl. lia.
   - intros k b Hk. rewrite (balances_are_differences rates outs 0 k b Hl Hk). lia.
 Qed.
-Print Assumptions C13_telescope_partial.
+Print Assumptions C13_telescope.
 
 (* For jitter below 100 % (jn < jd) and rates within [0, R] the running
    difference between requested and emitted totals stays within the fixed
    bound (jn*R + jd)/(jd - jn) for ever. *)
-Theorem C13_bounded_partial : forall jn jd R rates outs,
+Theorem C13_bounded : forall jn jd R rates outs,
   0 <= jn < jd -> Forall (fun x => 0 <= x <= R) rates ->
   run_ok jn jd 0 rates outs ->
   forall k, (k < length rates)%nat ->
@@ -60,13 +63,75 @@ Proof.
     exact Hbb.
   - apply nth_error_None in E. lia.
 Qed.
-Print Assumptions C13_bounded_partial.
+Print Assumptions C13_bounded.
 
 (* Outputs are non-negative integers. *)
-Theorem C13_nonneg_partial : forall jn jd rates outs,
+Theorem C13_nonneg : forall jn jd rates outs,
   run_ok jn jd 0 rates outs -> Forall (fun o => 0 <= o) outs.
 Proof. intros jn jd rates outs H. exact (run_ok_nonneg _ _ _ _ _ H). Qed.
-Print Assumptions C13_nonneg_partial.
+Print Assumptions C13_nonneg.
+
+(* The binary64 code only produces admissible runs (and carries the balance exactly). *)
+Theorem C13_f64_admissible : forall mult_bits rates cos_bits R,
+  0 <= mult_bits < 2 ^ 63 -> 1 <= (mult_bits / 2 ^ 52) mod 2 ^ 11 <= 2046 ->
+  (B2R (f_of_bits mult_bits) < 100)%R ->
+  Forall (fun x => 0 <= x <= R) rates ->
+  Forall cos_ok (map f_of_bits cos_bits) -> length cos_bits = length rates ->
+  let '(jn, jd) := frac_of_bits mult_bits in
+  jn * R + jd <= (jd - jn) * (2 ^ 49 - R) ->
+  run_ok jn jd 0 rates (jit_run_f64 mult_bits rates cos_bits).
+Proof.
+  intros mult_bits rates cos_bits R Hb He Hlt HR Hcs Hlen.
+  pose proof (frac_of_bits_R mult_bits Hb He) as Hf.
+  destruct (frac_of_bits mult_bits) as [jn jd]. destruct Hf as (Hjd & Fm & Hpos & Hfrac).
+  intros Hbound.
+  apply (run_f64_admissible mult_bits rates cos_bits jn jd R); try assumption. split; assumption.
+Qed.
+Print Assumptions C13_f64_admissible.
+
+(* Composition: for the binary64 code itself, the running difference between requested and
+   emitted totals stays within the fixed bound for ever, the outputs are non-negative, and the
+   difference after k ticks is exactly the carried balance. *)
+Theorem C13_f64_total : forall mult_bits rates cos_bits R,
+  0 <= mult_bits < 2 ^ 63 -> 1 <= (mult_bits / 2 ^ 52) mod 2 ^ 11 <= 2046 ->
+  (B2R (f_of_bits mult_bits) < 100)%R ->
+  Forall (fun x => 0 <= x <= R) rates ->
+  Forall cos_ok (map f_of_bits cos_bits) -> length cos_bits = length rates ->
+  let '(jn, jd) := frac_of_bits mult_bits in
+  jn * R + jd <= (jd - jn) * (2 ^ 49 - R) ->
+  let outs := jit_run_f64 mult_bits rates cos_bits in
+  Forall (fun o => 0 <= o) outs /\
+  forall k, (k < length rates)%nat ->
+    (jd - jn) * Z.abs (zsum (firstn (S k) rates) - zsum (firstn (S k) outs)) <= jn * R + jd.
+Proof.
+  intros mult_bits rates cos_bits R Hb He Hlt HR Hcs Hlen.
+  pose proof (C13_f64_admissible mult_bits rates cos_bits R Hb He Hlt HR Hcs Hlen) as Ha.
+  pose proof (frac_of_bits_R mult_bits Hb He) as Hf.
+  destruct (frac_of_bits mult_bits) as [jn jd]. destruct Hf as (Hjd & Fm & Hpos & Hfrac).
+  intros Hbound outs. specialize (Ha Hbound). fold outs in Ha.
+  assert (Hj : 0 <= jn < jd).
+  { assert (Hjd0 : (0 < IZR jd)%R) by (apply IZR_lt; exact Hjd). split.
+    - apply le_IZR. rewrite Hfrac. apply Rmult_le_pos; [|apply Rlt_le; exact Hjd0].
+      apply Rmult_le_pos; [apply Rlt_le; exact Hpos|]. apply Rlt_le, Rinv_0_lt_compat. apply IZR_lt. reflexivity.
+    - apply lt_IZR. rewrite Hfrac. rewrite <- (Rmult_1_l (IZR jd)) at 2.
+      apply Rmult_lt_compat_r; [exact Hjd0|].
+      apply Rmult_lt_reg_r with 100%R; [apply IZR_lt; reflexivity|].
+      unfold Rdiv. rewrite Rmult_assoc, Rinv_l, Rmult_1_r, Rmult_1_l; [exact Hlt|].
+      apply Rgt_not_eq, IZR_lt. reflexivity. }
+  split.
+  - exact (C13_nonneg jn jd rates outs Ha).
+  - exact (C13_bounded jn jd R rates outs Hj HR Ha).
+Qed.
+Print Assumptions C13_f64_total.
+
+(* The hypotheses are satisfiable: 20 % jitter (bits of 20.0) is the fraction 1/5, a positive
+   normal float, and rates up to 100000 per tick are far inside the magnitude condition. *)
+Example C13_f64_hypotheses :
+  let b := 4626322717216342016 in
+  0 <= b < 2 ^ 63 /\ 1 <= (b / 2 ^ 52) mod 2 ^ 11 <= 2046 /\
+  let '(jn, jd) := frac_of_bits b in
+  jn * 5 = jd /\ jn * 100000 + jd <= (jd - jn) * (2 ^ 49 - 100000).
+Proof. vm_compute. repeat split; discriminate. Qed.
 
 (* The executable check used on the implementation's outputs decides run_ok. *)
 Theorem C13_checker_sound : forall jn jd rates outs,
